@@ -14,6 +14,7 @@ import TsrunVerif.Driver.Orders
 import TsrunVerif.Driver.Roots
 import TsrunVerif.Driver.Life
 import TsrunVerif.Driver.Pratt
+import TsrunVerif.Driver.Lib
 
 /-! `tvdriver <model>`: line protocol, one observation line per case line. -/
 
@@ -44,6 +45,7 @@ def main (args : List String) : IO UInt32 := do
   | ["orders"] => loop stdin stdout TsrunVerif.Driver.ordersLine; return 0
   | ["roots"] => loop stdin stdout TsrunVerif.Driver.rootsLine; return 0
   | ["life"] => loop stdin stdout TsrunVerif.Driver.lifeLine; return 0
+  | ["lib"] => loop stdin stdout TsrunVerif.Driver.libLine; return 0
   | ["pratt"] => loop stdin stdout TsrunVerif.Driver.prattLine; return 0
   | ["heap"] => loop stdin stdout TsrunVerif.Driver.heapLine; return 0
   | _ => IO.eprintln "usage: tvdriver <model>"; return 2
